@@ -23,7 +23,7 @@ ASSUMPTIONS = [
 ]
 COMPONENTS = {"real": ["twosigma.memento (all)", "CPython file API", "tmpfs directory tree", "process death via fork/_exit"],
               "stub": ["uuid4 (seeded)", "wall clock (virtual)", "user program (fixed scenario module)"]}
-REACH = ["fired:crash-before", "fired:error-before", "fired:crash-after-open", "fired:torn", "fired:short-error",
+REACH = ["twin_asked_first", "fired:crash-before", "fired:error-before", "fired:crash-after-open", "fired:torn", "fired:short-error",
          "fired:error-first-write", "dedup_path_taken", "recovered_after_fault"]
 
 PROGRAM = '''
@@ -85,6 +85,16 @@ def fk(x):
 def gk(x):
     __vtrace__("gk", x)
     return KeyOverrideResult(["kv", x], "ko/k2")
+
+@m.memento_function
+def fkc(x):
+    __vtrace__("fkc", x)
+    return KeyOverrideResult(["kv", "same"], "ko/k3")
+
+@m.memento_function
+def gkc(x):
+    __vtrace__("gkc", x)
+    return KeyOverrideResult(["kv", "same"], "ko/k3")
 
 @m.memento_function
 def par(x):
@@ -159,6 +169,8 @@ def expect(fn, x):
         return ["ok", None]
     if fn in ("fk", "gk"):
         return ["ok", ["kv", x]]
+    if fn in ("fkc", "gkc"):
+        return ["ok", ["kv", "same"]]
     if fn in ("par", "par2"):
         return ["ok", [[x, "hello"], "par"]]
     if fn in ("ff", "gf"):
@@ -191,6 +203,8 @@ SCENARIOS = {
     "S5-exception": ([], ("fe", 1), ("ge", 1)),
     "S6-null": ([], ("fz", 1), ("gz", 1)),
     "S7-override": ([("call", "fk", 1)], ("fk", 2), ("gk", 2)),
+    # the same bytes written again under the same override key by another call: the earlier memento must keep reading them
+    "S7b-override-same-bytes": ([("call", "fkc", 1)], ("gkc", 1), ("fkc", 1)),
     "S8-after-forget": ([("call", "f", 1), ("forget", "f", 1)], ("f", 1), ("g", 1)),
     # nested memoizations inside one call, batches, other serialization strategies, merged partitions
     "S9-nested": ([], ("par", 1), ("par2", 1)),
@@ -202,6 +216,9 @@ SCENARIOS = {
     "S12-merged-partition": ([], ("fm", 1), ("gm", 1)),
     "S12b-merged-partition-parent-stored": ([("call", "fp", 1)], ("fm", 1), ("gm", 1)),
 }
+
+
+TWIN_FIRST = ("S2-dedup", "S4b-partition-dedup", "S7b-override-same-bytes")
 
 
 def _op(t):
@@ -339,6 +356,11 @@ def cases(tier, seed):
                     f = dict(variant=v, k=k, life=0, **extra)
                     out.append({"scenario": scn, "cfg": cfg, "faults": [f], "kind": kind,
                                 "pclass": path_class(kind, rel), "idseed": 100 + len(out)})
+                    if scn in TWIN_FIRST:
+                        # the other function, whose stored result shares an object with the faulted write, is asked first
+                        # afterwards (before a later successful write of the faulted call could repair anything)
+                        out.append({"scenario": scn, "cfg": cfg, "faults": [dict(f)], "kind": kind, "after": "twin-first",
+                                    "pclass": path_class(kind, rel), "idseed": 100 + len(out)})
     if tier == "thorough":
         rng = core.stream(seed, "c08-sequences")
         keys = sorted(base)
@@ -399,12 +421,17 @@ def execute(case):
                 if "op" in e and e["res"] != expect_op(e["op"]):
                     viol.append(("wrong-or-raised-in-faulted-lifetime", e))
         feats = {"scenario": scn.split("-")[0]}
+        if case.get("after"):
+            feats["after"] = case["after"]
         feats.update(fault_desc or {"event": case["kind"], "path": case["pclass"], "variant": case["faults"][0]["variant"]})
         if len(case["faults"]) > 1:
             feats["nfaults"] = len(case["faults"])
         # (b)(c) fault-free lifetimes
         runs_by_life = []
         script = [tcall, tcall, tcall, wcall, wcall, wcall, ("call", "u", 2)]
+        if case.get("after") == "twin-first":
+            script = [wcall, wcall, wcall, tcall, tcall, tcall, ("call", "u", 2)]
+            stats["twin_asked_first"] = 1
         for li in range(2):
             ev, code = _lifetime(root, cfg, case["idseed"] + 50 + li, script, None, "after%d" % li, scan=(li == 1))
             log.append(ev)
